@@ -789,6 +789,11 @@ func (e *Engine) restrictedWriters(p string) []*ssa.Function {
 				add(pd.Fields)
 			}
 		}
+		for _, fz := range ts.Frozen {
+			if hasTag(fz.Tags, p) {
+				add([]string{"*"})
+			}
+		}
 	}
 	if len(fields) == 0 {
 		return nil
@@ -831,7 +836,7 @@ func (e *Engine) restrictedWriters(p string) []*ssa.Function {
 				if !ok || n.Obj().Pkg() == nil {
 					continue
 				}
-				if m := fields[n.Obj().Pkg().Path()+"."+n.Obj().Name()]; m != nil && m[pt.Elem().Underlying().(*types.Struct).Field(fa.Field).Name()] {
+				if m := fields[n.Obj().Pkg().Path()+"."+n.Obj().Name()]; m != nil && (m["*"] || m[pt.Elem().Underlying().(*types.Struct).Field(fa.Field).Name()]) {
 					touch = true
 				}
 			}
